@@ -2,7 +2,7 @@
 uncrustify's own raw tokeniser (UNC_VERIF_TOKENS dump)."""
 from .lex import cfamily
 
-INDEP_LANGS = {"C": "C", "CPP": "CPP", "OC": "OC", "OC+": "OC+", "JAVA": "JAVA"}
+INDEP_LANGS = {"C": "C", "CPP": "CPP", "OC": "OC", "OC+": "OC+", "JAVA": "JAVA", "CS": "CS", "D": "D", "VALA": "VALA"}
 SKIP_TYPES = {"NEWLINE", "NL_CONT", "COMMENT", "COMMENT_CPP", "COMMENT_MULTI", "COMMENT_EMBED",
               "COMMENT_START", "COMMENT_END", "COMMENT_WHOLE", "COMMENT_ENDIF", "WHITESPACE", "JUNK"}
 FREE_TEXT = {"PREPROC_BODY", "IGNORED"}
